@@ -37,6 +37,11 @@ FOREIGN_IP = ['192.0.2.99', '198.51.100.7', '2001:db8::99', '::ffff:192.0.2.1', 
 FOREIGN_NET = [bytes([192, 0, 2, 0, 255, 255, 255, 0]).hex()]         # iPAddress of 8 octets: a network
 FOREIGN_DNS = ['evil.example.net', 'PEER.example.org', '*.example.org', 'peer.example.org.', 'example.org', 'xn--peer-9na.example.org']
 FOREIGN_URI = ['dtn://other/', 'dtn://peer', 'DTN://peer/', 'ipn:1.0', 'dtn://peer/x', 'https://peer.example.org/']
+# developer switch (patch trials on a scratch copy of the repository, VERIF_REPO=...): compare against another
+# quirk set of the model than Quirks.current, e.g. VERIF_C15_QUIRKS=repaired. Recorded in the evidence.
+QUIRKS = os.environ.get('VERIF_C15_QUIRKS') or None
+if QUIRKS and QUIRKS.startswith('{'):
+    QUIRKS = json.loads(QUIRKS)
 HS_MODEL = {'ok': 'ok', 'sslerror': 'sslerror', 'certerror': 'sslerror', 'eof': 'sslerror', 'reset': 'oserror'}
 
 
@@ -174,13 +179,16 @@ def model_request(sc, native):
     else:
         cj = {'san': [['ip', h] for h in cert.get('ip', [])] + [['dns', d] for d in cert.get('dns', [])] +
               [['uri', u] for u in cert.get('uri', [])] + [['other'] for _ in cert.get('other', [])]}
-    return {'op': 'tls.negotiate',
+    req = {'op': 'tls.negotiate',
             'cfg': {'passive': sc['passive'], 'tls_enable': bool(sc['tls_enable']), 'require_tls': sc['require_tls'],
                     'require_host': bool(sc['require_host']), 'require_node': bool(sc['require_node'])},
             'env': {'peer_flags': sc['peer_flags'], 'handshake': HS_MODEL[sc['handshake']], 'pipelined': bool(sc.get('pipelined')),
                     'native': bool(native)},
             'conn': {'peer_name': sc['peer_name'], 'sock_addr': sc['sock_peer'], 'sock_octets': T.ip_bytes(sc['sock_peer']).hex(),
                      'node': sc['peer_node'], 'cert': cj}}
+    if QUIRKS is not None:
+        req['quirks'] = QUIRKS
+    return req
 
 
 def _msg(m):
@@ -266,7 +274,6 @@ def monitors(chk, sc, obs, replay):
     init_sec = any(m['k'] == 'sess_init' for m in obs['secured'])
     established = 'established' in obs['states']
     proceeds = init_clear or init_sec or established
-    delivered_init = not sc.get('pipelined') and not obs['closed'] or sc.get('pipelined')
     if our and this_offers != bool(sc['tls_enable']):
         hit('C15:contact-header-offer-differs-from-config', 'CAN_TLS in our contact header is not tls_enable')
     # --- TLS is attempted exactly when both contact headers offer it (and that is acceptable)
@@ -291,7 +298,9 @@ def monitors(chk, sc, obs, replay):
         hit('C15:established-and-closed', 'session established on a closed connection')
     # --- under TLS: established only if nothing contradicts and the required identifiers match
     f = cert_facts(sc)
-    tls_session = obs['is_secure'] and delivered_init
+    # a decision is due when the peer's SESS_INIT was delivered over the TLS socket (a SESS_INIT that came in the
+    # clear ahead of the handshake need not be answered; acting on it is flagged separately)
+    tls_session = obs['is_secure'] and not sc.get('pipelined')
     auth_ok = not f['contradictions'] and (not sc['require_host'] or f['host_ok']) and (not sc['require_node'] or f['node_ok'])
     if established and obs['is_secure']:
         if f['contradictions']:
@@ -508,6 +517,8 @@ def run(chk):
         'GLib stub accepts io_add_watch on a None socket (only matters for octets handled after close)',
         'ssl.match_hostname available in this interpreter: %s; shim pass: %s' % (T.native_available(), shim),
     ]
+    if QUIRKS is not None:
+        chk.notes.append('VERIF_C15_QUIRKS=%s: correspondence against a quirk set other than Quirks.current (developer trial)' % json.dumps(QUIRKS))
     config_defaults(chk)
     one_pass(chk, shim=False)
     match_id_unit(chk, 400 if chk.tier == 'quick' else 20000)
